@@ -95,6 +95,8 @@ Body(k) == << Code("K" \o ToString(k) \o " = " \o ToString(10 + k)),
               Code("addi x8, x8, K" \o ToString(k)),
               Code("li x9, 74565"),
               Code("jal x1, F" \o ToString(k)) >>
+\* files that BEGIN with blank / whitespace-only lines (they count for the 1-based line numbers like any other line)
+Lead(k) == CASE k = 0 -> << Code(""), Code("") >> [] k = 1 -> << Code("   ") >> [] OTHER -> <<>>
 Names == <<"main.asm", "one.asm", "two.asm">>
 Dirs == <<"proj", "proj", "inc1">>
 
@@ -108,9 +110,9 @@ Spec == Init /\ [][Next]_sc
 Insert(s, i, x) == SubSeq(s, 1, i - 1) \o <<x>> \o SubSeq(s, i, Len(s))
 \* file k (0-based depth): its body, the include of the next file after line 2 (if any), the fault at position pos (if it is the faulty file)
 FileLines(k) ==
-  LET b0 == (IF k = 0 THEN Prefix ELSE <<>>) \o Body(k)
+  LET b0 == Lead(k) \o (IF k = 0 THEN Prefix ELSE <<>>) \o Body(k)
       b1 == IF k < 2 THEN Insert(b0, Len(b0) - 1, Inc("include " \o Names[k + 2], <<Names[k + 2]>>)) ELSE b0
-      off == IF k = 0 THEN Len(Prefix) ELSE 0
+      off == Len(Lead(k)) + (IF k = 0 THEN Len(Prefix) ELSE 0)
   IN IF k = sc.depth THEN Insert(b1, off + sc.pos, Code(Faults[sc.f][3])) ELSE b1
 Fs == {[dir |-> Dirs[k + 1], name |-> Names[k + 1], lines |-> FileLines(k)] : k \in 0..2}
 Main == CHOOSE f \in Fs : f.name = "main.asm"
